@@ -15,7 +15,8 @@ class KDSingleCollatorWrapper(KDCollatorBase):
         return self
 
     def __call__(self, batch):
-        batch, ctx = self.collator.collate(batch=batch, dataset_mode=self.dataset_mode, ctx={})
+        ctx = {}
+        batch = self.collator.collate(batch=batch, dataset_mode=self.dataset_mode, ctx=ctx)
         if self.return_ctx:
             return batch, ctx
         return batch
